@@ -504,6 +504,10 @@ VSsetname(int32       vkey, /* IN: Vdata key */
     if (vs == NULL)
         HGOTO_ERROR(DFE_BADPTR, FAIL);
 
+    /* a vdata attached for reading cannot be renamed */
+    if (vs->access == 'r')
+        HGOTO_ERROR(DFE_RDONLY, FAIL);
+
     /* get current length of vdata name */
     curr_len = (int32)strnlen(vs->vsname, VSNAMELENMAX + 1);
 
@@ -563,6 +567,10 @@ VSsetclass(int32       vkey, /* IN: vdata key */
     vs = w->vs;
     if (vs == NULL)
         HGOTO_ERROR(DFE_BADPTR, FAIL);
+
+    /* a vdata attached for reading cannot be given another class */
+    if (vs->access == 'r')
+        HGOTO_ERROR(DFE_RDONLY, FAIL);
 
     /* get current length of vdata class name */
     curr_len = (int)strlen(vs->vsclass);
